@@ -303,16 +303,31 @@ def rule_save_restore(prog):
             if not over:
                 continue
             n_funcs += 1
-            for m in hir.nodes(b["body"], "Match"):
-                if m["src"] != "match":
+            for m, parents in hir.walk(b["body"]):
+                if m.get("k") != "Match" or m["src"] != "match":
                     continue
+                # what runs after the match when an arm falls through: the rest of every enclosing block
+                cont = []
+                chain = list(parents) + [m]
+                for i, anc in enumerate(chain[:-1]):
+                    if anc.get("k") == "Closure":
+                        cont = []
+                    if anc.get("k") == "Block":
+                        kids = list(anc["stmts"]) + ([anc["expr"]] if anc.get("expr") else [])
+                        nxt = chain[i + 1]
+                        idx = [j for j, x in enumerate(kids) if x is nxt]
+                        if idx:
+                            cont.append(kids[idx[0] + 1:])
                 for arm in m["arms"]:
                     pv = hir.pat_variant(arm["pat"])
                     if pv is None or last(pv) not in ("Ok", "Err"):
                         continue
                     if not list(hir.pat_bindings(arm["pat"])):
                         continue  # `Err(_) => panic!`
-                    out.add(b["d"], "%s restored on the %s exit" % (field, last(pv)), writes(arm["body"], field, backup), c.loc(arm["sp"]),
+                    restored = writes(arm["body"], field, backup)
+                    if not restored and not any(True for _ in hir.nodes(arm["body"], "Ret")):
+                        restored = any(writes(x, field, backup) for rest in cont for x in rest)
+                    out.add(b["d"], "%s restored on the %s exit" % (field, last(pv)), restored, c.loc(arm["sp"]),
                             "`%s` is saved into `%s` and overwritten; this exit hands the TokenStream on without "
                             "writing the saved value back" % (field, backup.split("#")[0]))
     if n_funcs == 0:
@@ -357,17 +372,44 @@ def rule_token_errors(prog):
 
 # ------------------------------------------------------------------ SYNC-SETS
 
+def recovery_sites(prog):
+    """ignore_until0/1 calls: (body, call node, path of the set function fed through peek(..) or None)."""
+    c = prog.front
+    res = []
+    for b in c.bodies:
+        if "/tests" in c.file_of(b["sp"]):
+            continue
+        for n in hir.nodes(b["body"], "Call"):
+            cal = hir.callee(n) or ""
+            if cal.endswith("parser::utility::ignore_until0") or cal.endswith("parser::utility::ignore_until1"):
+                arg = hir.strip(n["args"][0])
+                la = None
+                if arg.get("k") == "Call" and (hir.callee(arg) or "").endswith("nom::combinator::peek"):
+                    d = hir.path_def(arg["args"][0])
+                    if d and d["p"].startswith("spl_frontend::"):
+                        la = d.get("rp") or d["p"]
+                res.append((b, n, la))
+    return res
+
+
 def look_ahead_sets(prog):
-    """look_ahead_parser! expansions -> name -> list of element descriptors."""
+    """The synchronisation sets: the functions fed to ignore_until through peek(..), and the sets they include.
+    -> (name -> list of element descriptors, name -> body).  Found by role, not by macro or module name."""
     c = prog.front
     tags = tag_parsers(prog)
     sets = {}
     bodies = {}
-    for b in c.bodies:
-        if "look_ahead_parser!" not in (b.get("mx") or []):
+    todo = [la for _, _, la in recovery_sites(prog) if la]
+    seen = set()
+    while todo:
+        path = todo.pop()
+        if path in seen:
             continue
-        alts = [n for n in hir.nodes(b["body"], "Call") if (hir.callee(n) or "").endswith("nom::branch::alt")
-                and "look_ahead_parser!" in (n.get("mx") or [])]
+        seen.add(path)
+        b = prog.body(path)
+        if b is None:
+            continue
+        alts = [n for n in hir.nodes(b["body"], "Call") if (hir.callee(n) or "").endswith("nom::branch::alt")]
         if not alts:
             continue
         elems = []
@@ -376,10 +418,12 @@ def look_ahead_sets(prog):
             # recognize($parser)
             inner = hir.strip(el["args"][0]) if el.get("k") == "Call" and el.get("args") else el
             d = hir.path_def(inner)
-            if d and d["p"] in tags:
-                elems.append(("tok", tags[d["p"]]))
-            elif d and d["p"].startswith("spl_frontend::parser::look_ahead::"):
-                elems.append(("set", last(d["p"])))
+            dp = (d.get("rp") or d["p"]) if d else None
+            if dp in tags:
+                elems.append(("tok", tags[dp]))
+            elif dp and dp.startswith("spl_frontend::") and prog.body(dp) is not None and dp != path:
+                elems.append(("set", last(dp)))
+                todo.append(dp)
             else:
                 toks = []
                 for n in hir.nodes(inner, "Path"):
@@ -396,9 +440,21 @@ def rule_sync_sets(prog):
     out = Out("SYNC-SETS")
     c = prog.front
     sets, bodies = look_ahead_sets(prog)
-    if set(sets) != {"global_dec", "stmt", "var_dec", "param_dec", "arg"}:
-        out.missing("look_ahead::{global_dec,stmt,var_dec,param_dec,arg} (found %s)" % sorted(sets))
+    want = {"GlobalDeclaration": "global_dec", "Statement": "stmt", "VariableDeclaration": "var_dec",
+            "ParameterDeclaration": "param_dec", "Argument": "arg"}
+    # which set each of the five recovering node parsers skips to
+    found = {}
+    for b, n, la in recovery_sites(prog):
+        owner = None
+        for k in want:
+            if ("parser::" + k + " as") in b["d"] or (k + " as parser::Parser>::parse::") in b["d"]:
+                owner = k
+        found.setdefault(owner, []).append((last(la) if la else None, c.loc(n["sp"]), b["d"]))
+    used = {k: found[k][0][0] for k in want if len(found.get(k, [])) == 1 and found[k][0][0] in sets}
+    if set(used) != set(want):
+        out.missing("the synchronisation sets of the five recovering parsers %s (found %s)" % (sorted(want), sorted(used)))
         return out
+    names = {want[k]: used[k] for k in want}    # role -> actual function name
 
     def closure(name, seen=()):
         res = set()
@@ -411,39 +467,22 @@ def rule_sync_sets(prog):
                 res.add(v)
         return res
 
-    gd = closure("global_dec")
-    out.add("look_ahead::global_dec", "= {proc, type, eof}", gd == {"Proc", "Type", "Eof"}, c.loc(bodies["global_dec"]["sp"]),
+    gd = closure(names["global_dec"])
+    out.add("look_ahead::global_dec", "= {proc, type, eof}", gd == {"Proc", "Type", "Eof"}, c.loc(bodies[names["global_dec"]]["sp"]),
             "found %s" % sorted(map(str, gd)))
     chain = ["global_dec", "stmt", "var_dec", "param_dec", "arg"]
     for a, b in zip(chain, chain[1:]):
-        ok = closure(a) <= closure(b)
-        out.add("look_ahead::" + b, "contains look_ahead::" + a, ok, c.loc(bodies[b]["sp"]),
+        ok = closure(names[a]) <= closure(names[b])
+        out.add("look_ahead::" + b, "contains look_ahead::" + a, ok, c.loc(bodies[names[b]]["sp"]),
                 "recovery inside a nested construct must stop wherever the enclosing construct's recovery stops; "
-                "missing: %s" % sorted(map(str, closure(a) - closure(b))))
-    # every ignore_until0/1 is fed by peek(look_ahead::X); map user -> X
-    want = {"GlobalDeclaration": "global_dec", "Statement": "stmt", "VariableDeclaration": "var_dec",
-            "ParameterDeclaration": "param_dec", "Argument": "arg"}
-    found = {}
-    for b in c.bodies:
-        for n in hir.nodes(b["body"], "Call"):
-            cal = hir.callee(n) or ""
-            if cal.endswith("parser::utility::ignore_until0") or cal.endswith("parser::utility::ignore_until1"):
-                arg = hir.strip(n["args"][0])
-                la = None
-                if arg.get("k") == "Call" and (hir.callee(arg) or "").endswith("nom::combinator::peek"):
-                    d = hir.path_def(arg["args"][0])
-                    if d and d["p"].startswith("spl_frontend::parser::look_ahead::"):
-                        la = last(d["p"])
-                owner = None
-                for k in want:
-                    if ("parser::" + k + " as") in b["d"] or (k + " as parser::Parser>::parse::") in b["d"]:
-                        owner = k
-                found.setdefault(owner, []).append((la, c.loc(n["sp"]), b["d"]))
+                "missing: %s" % sorted(map(str, closure(names[a]) - closure(names[b]))))
+    # every recovering parser skips to a set of its own: the five sets are pairwise different functions, so that the
+    # nesting above is a statement about what each construct really uses
     for k, la in sorted(want.items()):
         got = found.get(k, [])
-        ok = len(got) == 1 and got[0][0] == la
+        ok = len(got) == 1 and len(set(names.values())) == 5
         out.add(k + "::parse_error", "skips to look_ahead::" + la, ok, got[0][1] if got else "",
-                "error recovery of %s must skip tokens until peek(look_ahead::%s); found %s" % (k, la, [g[0] for g in got]))
+                "error recovery of %s must skip tokens until its own synchronisation set; found %s" % (k, [g[0] for g in got]))
     for k, got in found.items():
         if k not in want:
             for g in got:
@@ -453,36 +492,107 @@ def rule_sync_sets(prog):
 
 # ------------------------------------------------------------------ EXPECT-NOCONSUME + tag parser shape
 
+def _let_defs(body_node):
+    d = {}
+    for l in hir.nodes(body_node, "Let"):
+        if l["pat"].get("k") == "Binding" and l.get("init") is not None:
+            d[l["pat"]["id"]] = l["init"]
+    return d
+
+
+def _resolves_to(e, defs, pred, depth=0):
+    """follow `let x = e` chains (and clones) until pred(e) holds"""
+    e = hir.strip_ref(e)
+    if e.get("k") == "MethodCall" and e["m"] == "clone":
+        e = hir.strip_ref(e["recv"])
+    if pred(e):
+        return True
+    pl = hir.path_local(e)
+    if pl and pl["id"] in defs and depth < 6:
+        return _resolves_to(defs[pl["id"]], defs, pred, depth + 1)
+    return False
+
+
+def _is_local(e, lid):
+    pl = hir.path_local(hir.strip_ref(e))
+    return bool(pl) and pl["id"] == lid
+
+
+def _param_ids(b):
+    res = []
+    for p_ in b["params"]:
+        bs = list(hir.pat_bindings(p_))
+        res.append(bs[0]["id"] if len(bs) == 1 else None)
+    return res
+
+
+def _error_inputs_ok(prog, b, inp_id, depth=2):
+    """every ParserError{input: X, ..} built in b (or in a helper that receives b's input) has X = clone of that input.
+    -> (number of literals, all ok)"""
+    defs = _let_defs(b["body"])
+    n, ok = 0, True
+    for s_ in hir.nodes(b["body"], "Struct"):
+        if (s_.get("adt") or "").endswith("error::ParserError"):
+            f = {x["name"]: x["e"] for x in s_["fields"]}
+            n += 1
+            if not _resolves_to(f.get("input", {}), defs, lambda e: _is_local(e, inp_id)):
+                ok = False
+    if depth > 0:
+        for call in hir.nodes(b["body"], "Call"):
+            hb = hir.local_callee_body(prog, call)
+            if hb is None or hb["p"] == b["p"]:
+                continue
+            ids = _param_ids(hb)
+            for i, a_ in enumerate(call["args"]):
+                if i < len(ids) and ids[i] is not None and _is_local(a_, inp_id):
+                    n2, ok2 = _error_inputs_ok(prog, hb, ids[i], depth - 1)
+                    n += n2
+                    ok = ok and ok2
+    return n, ok
+
+
+def _resumes_at_error_input(prog, owner, node, err_id, depth=2):
+    """`node` (an error arm binding err) ends in Ok((err.input, ..)) — directly or inside a helper that receives err."""
+    defs = _let_defs(owner["body"])
+
+    def is_err_input(e):
+        return e.get("k") == "Field" and e["name"] == "input" and _is_local(e["base"], err_id)
+
+    for call in hir.nodes(node, "Call"):
+        d = hir.path_def(call["f"])
+        if d and last(d.get("ctor_of", "")) == "Ok":
+            tup = hir.strip(call["args"][0])
+            if tup.get("k") == "Tup" and _resolves_to(tup["es"][0], defs, is_err_input):
+                return True
+        hb = hir.local_callee_body(prog, call) if depth > 0 else None
+        if hb is not None and hb["p"] != owner["p"]:
+            ids = _param_ids(hb)
+            for i, a_ in enumerate(call["args"]):
+                if i < len(ids) and ids[i] is not None and _is_local(a_, err_id):
+                    if _resumes_at_error_input(prog, hb, hb["body"], ids[i], depth - 1):
+                        return True
+    return False
+
+
 def rule_recovery_noconsume(prog):
     """C05: a failed token parser hands back its *original* input (so `expect` resumes exactly where the
-    failing construct started, comments included) and only tag_parser!/comment/ignore_until take tokens."""
+    failing construct started, comments included) and only the token parsers/comment/ignore_until take tokens."""
+    from . import roles
     out = Out("NOCONSUME")
     c = prog.front
     tags = tag_parsers(prog)
     for p, tok in sorted(tags.items()):
         b = prog.body(p)
-        params = [x for x in b["params"] if x.get("k") == "Binding"]
-        if not params:
+        ids = _param_ids(b)
+        if not ids or ids[0] is None:
             out.add(b["d"], "error carries the original input", None, c.loc(b["sp"]))
             continue
-        inp = "%s#%s" % (params[0]["name"], params[0]["id"])
-        # every ParserError{input: X, ..} literal in the body: X must be `input.clone()` of the parameter
-        lits = [s for s in hir.nodes(b["body"], "Struct") if (s.get("adt") or "").endswith("error::ParserError")]
-        ok = bool(lits)
-        for s in lits:
-            f = {x["name"]: x["e"] for x in s["fields"]}
-            e = hir.strip(f.get("input", {}))
-            src = None
-            if e.get("k") == "MethodCall" and e["m"] == "clone":
-                src = place(e["recv"])
-            else:
-                src = place(e)
-            if src != inp:
-                ok = False
-        out.add("tag_parser!(%s)" % last(p), "error carries the original input", ok, c.loc(b["sp"]),
+        # every ParserError{input: X, ..} literal built for this parser: X must be `input.clone()` of the parameter
+        n_lits, ok = _error_inputs_ok(prog, b, ids[0])
+        out.add("tag_parser!(%s)" % last(p), "error carries the original input", (ok and n_lits > 0) if (n_lits or not ok) else None, c.loc(b["sp"]),
                 "on mismatch the parser must fail with the stream it was given (before skipping comments), "
                 "otherwise error recovery swallows the comments in front of the gap", ("tag",))
-    # expect(): both error arms return Ok((err.input, None)) untouched
+    # expect(): the error arms return Ok((err.input, None)) untouched
     ex = prog.body("spl_frontend::parser::utility::expect")
     if ex is None:
         out.missing("parser::utility::expect")
@@ -493,37 +603,39 @@ def rule_recovery_noconsume(prog):
             pv = hir.pat_variant(arm["pat"])
             if pv and last(pv) == "Err":
                 binds = list(hir.pat_bindings(arm["pat"]))
-                names = [x["name"] for x in binds]
-                if "err" not in names:
+                # the arm that binds the whole ParserError (not the `Affected{input}` destructuring arm)
+                errb = [x for x in binds if "error::ParserError" in c.tstr(x["bt"])]
+                if len(errb) != 1:
                     continue
-                errb = [x for x in binds if x["name"] == "err"][0]
-                errp = "%s#%s.input" % (errb["name"], errb["id"])
-                oks = [call for call in hir.nodes(arm["body"], "Call")
-                       if hir.path_def(call["f"]) and last(hir.path_def(call["f"]).get("ctor_of", "")) == "Ok"]
-                good = False
-                for call in oks:
-                    tup = hir.strip(call["args"][0])
-                    if tup.get("k") == "Tup" and place(tup["es"][0]) == errp:
-                        good = True
-                takes = calls_in(arm["body"], "::advance") + calls_in(arm["body"], "complete::take")
+                good = _resumes_at_error_input(prog, ex, arm["body"], errb[0]["id"])
+                takes = [x for x in hir.nodes_deep(prog, arm["body"], 2) if x.get("k") in ("Call", "MethodCall") and
+                         ((hir.callee(x) or "").endswith("::advance") or (hir.callee(x) or "").endswith("complete::take"))]
                 n += 1
                 out.add("parser::utility::expect", "error arm resumes at the failing parser's input", good and not takes,
                         c.loc(arm["sp"]), "`Ok((err.input, None))` without consuming anything is expected", ("expect",))
     if n < 1:
         out.missing("error arm(s) in parser::utility::expect")
     # who may take tokens from a TokenStream
-    allowed = ("tag_parser!",)
+    comments = roles.comment_parsers(prog)
+    takers_by_macro = {}
     for b in c.bodies:
         f = c.file_of(b["sp"])
-        if not (f.endswith("parser.rs") or f.endswith("parser/utility.rs")):
+        if not (f.endswith("parser.rs") or "/parser/" in f) or "/tests" in f:
             continue
+
         def _taker(x):
-            return ("tag_parser!" in (x.get("mx") or [])) or x["p"] == "spl_frontend::parser::comment" or \
-                x["p"].startswith("spl_frontend::parser::utility::ignore_until")
+            return x["p"] in tags or x["p"] in comments or x["p"].startswith("spl_frontend::parser::utility::ignore_until")
         for n_ in calls_in(b["body"], "nom::bytes::complete::take"):
             ok = _taker(b) or hir.only_called_from(prog, b["p"], _taker)
+            mx = [m for m in (n_.get("mx") or []) if m in (b.get("mx") or [])]
+            if mx and ok:
+                # a whole function generated by a local macro: one source site, one instance
+                takers_by_macro.setdefault(mx[-1], c.loc(n_["sp"]))
+                continue
             out.add(b["d"], "takes tokens only in tag_parser!/comment/ignore_until", ok, c.loc(n_["sp"]),
                     "a raw `take` outside the token parsers bypasses comment skipping", ("take",))
+    for m_, loc_ in sorted(takers_by_macro.items()):
+        out.add(m_, "takes tokens only in tag_parser!/comment/ignore_until", True, loc_, "", ("take",))
     # declaration keywords are consumed only by the declaration parsers and look_ahead::global_dec
     for kw, owner in (("proc", "ProcedureDeclaration"), ("type", "TypeDeclaration")):
         path = "spl_frontend::parser::keywords::" + ("r#type" if kw == "type" else kw)
@@ -576,31 +688,54 @@ def rule_parse_shape(prog):
                 kinds.add("while")
         return kinds
 
-    def rhs_calls(b):
+    def effective(b):
+        """a level that only delegates to a shared helper with its operand parser(s) as arguments is analysed as the
+        helper's body with the function parameters substituted"""
+        scope = b["p"].rsplit("::", 1)[0] + "::"
+        for n in hir.nodes(b["body"], "Call"):
+            hb = hir.local_callee_body(prog, n)
+            if hb is None or not hb["p"].startswith(scope) or hb["name"] in need:
+                continue
+            ids = _param_ids(hb)
+            subst = {}
+            for i, a_ in enumerate(n["args"]):
+                d = hir.path_def(a_)
+                if d and last(d["p"]) in need and i < len(ids) and ids[i] is not None:
+                    subst[ids[i]] = last(d["p"])
+            if subst:
+                return hb, subst
+        return b, {}
+
+    def rhs_calls(b0):
         """(first operand parser, [right operand parser passed to parse_rhs], lhs arg places)"""
+        b, subst = effective(b0)
+
+        def name_of(e):
+            d = hir.path_def(e)
+            if d:
+                return last(d["p"]) if d["p"].startswith(b0["p"].rsplit("::", 1)[0]) else None
+            pl = hir.path_local(hir.strip(e))
+            return subst.get(pl["id"]) if pl else None
         first = None
         rights = []
         lhs = []
         for n in hir.nodes(b["body"], "Call"):
-            d = hir.path_def(n["f"])
-            if not d:
+            nm = name_of(n["f"])
+            if not nm:
                 continue
-            nm = last(d["p"])
-            if nm == "parse_rhs" and d["p"].startswith(b["p"].rsplit("::", 1)[0]):
-                pd = hir.path_def(n["args"][3])
-                rights.append(last(pd["p"]) if pd else None)
+            if nm == "parse_rhs":
+                rights.append(name_of(n["args"][3]))
                 lhs.append(place(n["args"][1]))
             elif nm in need and first is None and nm != "parse_rhs":
                 first = nm
-        return first, rights, lhs
+        return first, rights, lhs, b
 
     spec = {"parse_comparison": ("parse_add", "parse_add", False),
             "parse_add": ("parse_mul", "parse_mul", True),
             "parse_mul": ("parse_factor", "parse_factor", True)}
     for lvl, (first_want, right_want, loops) in sorted(spec.items()):
-        b = fns[lvl]
-        first, rights, lhs = rhs_calls(b)
-        loc = c.loc(b["sp"])
+        first, rights, lhs, b = rhs_calls(fns[lvl])
+        loc = c.loc(fns[lvl]["sp"])
         out.add("Expression::parse::" + lvl, "left operand parsed by " + first_want, first == first_want, loc,
                 "found %s" % first)
         out.add("Expression::parse::" + lvl, "right operand parsed by the next tighter level " + right_want,
